@@ -10,13 +10,17 @@ PROP=$1; shift
 TIER=${1:-${VERIF_TIER:-quick}}
 [ $# -gt 0 ] && shift
 mkdir -p "$VERIF/.bin" "$VERIF/evidence" "$VERIF/replays"
+# the tree under test: /repo's working tree (VERIF_REPO only for background runs on a snapshot)
+REPO=${VERIF_REPO:-/repo}
 cd "$VERIF/mc" || exit 2
-cp /repo/go.sum go.sum 2>/dev/null
+MODFILE="$VERIF/.bin/go.$$.mod"
+sed "s#=> /repo#=> $REPO#" go.mod > "$MODFILE"
+cp "$REPO/go.sum" "$VERIF/.bin/go.$$.sum" 2>/dev/null
 BIN="$VERIF/.bin/check.$$"
-if ! go build -tags verif -o "$BIN" ./cmd/check 2>"$VERIF/.bin/build.$$.log"; then
+if ! go build -modfile="$MODFILE" -tags verif -o "$BIN" ./cmd/check 2>"$VERIF/.bin/build.$$.log"; then
   cat "$VERIF/.bin/build.$$.log"
   echo "HARNESS-ERROR property=$PROP build of the checker against /repo failed"
-  rm -f "$BIN" "$VERIF/.bin/build.$$.log"
+  rm -f "$BIN" "$VERIF/.bin/build.$$.log" "$MODFILE" "$VERIF/.bin/go.$$.sum"
   exit 2
 fi
 rm -f "$VERIF/.bin/build.$$.log"
@@ -29,11 +33,11 @@ C10|C16)
   case " $* " in *" -replay "*) ;; *)
   OV="$VERIF/.bin/ov.$$"
   rm -rf "$OV"; mkdir -p "$OV"
-  if ! go run ./cmd/overlaygen -repo /repo -rt "$VERIF/mc/schedrt" -out "$OV" . backend/joinserver backend applayer/clocksync applayer/multicastsetup applayer/fragmentation applayer/firmwaremanagement > "$OV/gen.log" 2>&1 \
-     || ! go build -tags "verif sched" -overlay "$OV/overlay.json" -o "$BIN.sched" ./cmd/schedcheck > "$OV/build.log" 2>&1; then
+  if ! go run -modfile="$MODFILE" ./cmd/overlaygen -repo "$REPO" -rt "$VERIF/mc/schedrt" -out "$OV" . backend/joinserver backend applayer/clocksync applayer/multicastsetup applayer/fragmentation applayer/firmwaremanagement > "$OV/gen.log" 2>&1 \
+     || ! go build -modfile="$MODFILE" -tags "verif sched" -overlay "$OV/overlay.json" -o "$BIN.sched" ./cmd/schedcheck > "$OV/build.log" 2>&1; then
     cat "$OV/gen.log" "$OV/build.log" 2>/dev/null
     echo "HARNESS-ERROR property=$PROP build of the schedule explorer (overlay) failed"
-    rm -rf "$OV" "$BIN" "$BIN.sched"
+    rm -rf "$OV" "$BIN" "$BIN.sched" "$MODFILE" "$VERIF/.bin/go.$$.sum"
     exit 2
   fi
   "$BIN.sched" -property "$PROP" -tier "$TIER" -out "$OV/summary.json" -overlay-report "$OV/report.json"
@@ -44,5 +48,5 @@ esac
 cd "$VERIF" || exit 2
 VERIF_SCHED_SUMMARY="$SUMMARY" "$BIN" -property "$PROP" -tier "$TIER" "$@"
 rc=$?
-rm -rf "$BIN" "$BIN.sched" "$VERIF/.bin/ov.$$"
+rm -rf "$BIN" "$BIN.sched" "$VERIF/.bin/ov.$$" "$MODFILE" "$VERIF/.bin/go.$$.sum"
 exit $rc
